@@ -12,7 +12,7 @@
    (32 on an AVR, 64 on the hosted mock core) and so is the start clock - the theorems hold across the
    roll-over.  Contact bounce is outside the model (the "sampled signal" is what digitalRead returned). *)
 From Coq Require Import ZArith QArith List Bool Arith.
-From RV Require Import Base.Wire Device.DButton Device.DPot Device.DUltra Proofs.InputsP Wire.C15W Proofs.SketchP.
+From RV Require Import Base.Wire Base.NumC Device.DButton Device.DPot Device.DUltra Host.ButtonHist Proofs.InputsP Proofs.ButtonHistP Wire.C15W Proofs.SketchP.
 Import ListNotations.
 
 (* ---------------------------------------------------------------- Button *)
@@ -81,6 +81,116 @@ Theorem C15_host_values :
   forall (cb : bool) (s : list bool), map snd (host_run cb s) = s.
 Proof. exact (fun cb s => host_values cb false s). Qed.
 Print Assumptions C15_host_values.
+
+(* ---- the host Button over whole call histories (Host/ButtonHist.v): any interleaving of set_pressed(v) and
+   is_pressed(), with or without a state_provider.  The host takes one sample per is_pressed() call, exactly as the
+   firmware takes one per loop() pass; [sampled] is the level in force at each of those calls (the level last set -
+   any number of set_pressed calls, also none, may lie in between - or what the provider returns then). *)
+
+(* the host enters on_click exactly at the rising edges of the SAMPLED signal (released before the first sample),
+   every is_pressed() returns its sample, no call raises - whatever levels came and went between the samples *)
+Theorem C15_host_clicks_eq_rising_edges_of_samples :
+  forall (d : nat) (provider : bool) (prov : nat -> bool) (ops : list hop),
+  let h := h_hist (S d) {| hc_click := Some 0%nat; hc_provider := provider |} prov hs_init ops in
+  snd h = true /\
+  map hclicks (poll_events ops (fst h)) = map b2n (edges false (sampled provider prov false 0 ops)) /\
+  map ret_of (poll_events ops (fst h)) = map Some (sampled provider prov false 0 ops).
+Proof. exact host_hist_clicks. Qed.
+Print Assumptions C15_host_clicks_eq_rising_edges_of_samples.
+
+(* without on_click the same levels are reported and nothing is entered *)
+Theorem C15_host_no_callback :
+  forall (d : nat) (provider : bool) (prov : nat -> bool) (ops : list hop),
+  let h := h_hist (S d) {| hc_click := None; hc_provider := provider |} prov hs_init ops in
+  snd h = true /\
+  map hclicks (poll_events ops (fst h)) = map (fun _ => 0%nat) (sampled provider prov false 0 ops) /\
+  map ret_of (poll_events ops (fst h)) = map Some (sampled provider prov false 0 ops).
+Proof. exact host_hist_no_callback. Qed.
+Print Assumptions C15_host_no_callback.
+
+(* "the same click count the host-side Button produces for the same signal": for every way of driving the host whose
+   sampled signal is the firmware's (which starts released at the setup sample), sample by sample the same clicks.
+   Guard (hence _partial): the host handler does not itself call is_pressed() - see the refutation below; the
+   firmware's handler may (any n). *)
+Theorem C15_host_agrees_any_drive_partial :
+  forall (pl : place) (n d : nat) (provider : bool) (prov : nat -> bool) (ops : list hop) (ps : list (bool * nat)),
+  sampled provider prov false 0 ops = map fst ps ->
+  map clicks (dev_run pl (Some n) false ps) =
+  map hclicks (poll_events ops (fst (h_hist (S d) {| hc_click := Some 0%nat; hc_provider := provider |} prov hs_init ops))).
+Proof. exact host_agrees_any_drive. Qed.
+Print Assumptions C15_host_agrees_any_drive_partial.
+
+(* levels that were never sampled do not matter: two histories (different set_pressed calls, different providers) with
+   the same sampled signal are indistinguishable at their is_pressed() calls *)
+Theorem C15_host_unsampled_levels_invisible :
+  forall (d : nat) (cfg : hcfg) (prov1 prov2 : nat -> bool) (ops1 ops2 : list hop),
+  plain cfg ->
+  sampled (hc_provider cfg) prov1 false 0 ops1 = sampled (hc_provider cfg) prov2 false 0 ops2 ->
+  poll_events ops1 (fst (h_hist (S d) cfg prov1 hs_init ops1)) =
+  poll_events ops2 (fst (h_hist (S d) cfg prov2 hs_init ops2)).
+Proof. exact unsampled_levels_invisible. Qed.
+Print Assumptions C15_host_unsampled_levels_invisible.
+
+(* set_pressed stores the truth value of its argument and nothing else: the edge detector's memory of the previous
+   SAMPLE is not touched *)
+Theorem C15_host_set_pressed_keeps_edge_state :
+  forall (s : hstate) (v : pynum),
+  hs_was (h_set s v) = hs_was s /\ hs_np (h_set s v) = hs_np s /\ hs_pressed (h_set s v) = truthy v.
+Proof. exact set_keeps_edge_state. Qed.
+Print Assumptions C15_host_set_pressed_keeps_edge_state.
+
+(* never while held, on the host: after a sample that was "pressed", whatever is set before the next sample - released
+   and pressed again any number of times - the next is_pressed() does not enter the handler *)
+Theorem C15_host_no_click_after_pressed_sample :
+  forall (d : nat) (cfg : hcfg) (prov : nat -> bool) (s : hstate) (vs : list pynum),
+  plain cfg -> hs_was s = true ->
+  Forall (fun evs => hclicks evs = 0%nat) (fst (h_hist (S d) cfg prov s (map HSet vs ++ [HPoll]))) /\
+  snd (h_hist (S d) cfg prov s (map HSet vs ++ [HPoll])) = true.
+Proof. exact no_click_after_pressed_sample. Qed.
+Print Assumptions C15_host_no_click_after_pressed_sample.
+
+(* REFUTED for a handler that itself calls is_pressed() (finding F-C15-host-handler-reentrancy): Button.is_pressed()
+   calls on_click BEFORE it stores _was_pressed, so the handler's own is_pressed() sees "pressed and not was" again and
+   enters the handler again: for EVERY recursion depth the interpreter allows the call runs out of it (RecursionError)
+   after entering the handler that many times - where the firmware, for the same signal (released, then pressed),
+   runs the handler once. *)
+Theorem C15_host_handler_reentrancy_refuted :
+  exists (n : nat) (ops : list hop) (ps : list (bool * nat)),
+    (forall prov, sampled false prov false 0 ops = map fst ps) /\
+    map clicks (dev_run BeforeLoop (Some n) false ps) = [1%nat] /\
+    forall depth prov,
+      h_hist depth {| hc_click := Some n; hc_provider := false |} prov hs_init ops = ([[]; repeat HClick depth], false).
+Proof. exact reentrancy_refuted. Qed.
+Print Assumptions C15_host_handler_reentrancy_refuted.
+
+(* ... in general: from every state with the contact pressed and the previous sample released, for every handler that
+   calls is_pressed() at least once, every depth *)
+Theorem C15_host_reentrant_handler_never_returns :
+  forall (n : nat) (prov : nat -> bool) (depth : nat) (s : hstate),
+  hs_pressed s = true -> hs_was s = false ->
+  h_poll depth {| hc_click := Some (S n); hc_provider := false |} prov s = (s, repeat HClick depth, false).
+Proof. exact reentrant_never_returns. Qed.
+Print Assumptions C15_host_reentrant_handler_never_returns.
+
+(* non-vacuity: the trace "short release between two pressed samples" - drives [0] [1] [0 1] [1] [1 0 1] [0] [1]:
+   sampled signal 0 1 1 1 1 0 1, two clicks (samples 1 and 6), the same as the firmware for that signal; a provider-
+   driven button with set_pressed calls thrown in (they are ignored); truthiness of the argument of set_pressed *)
+Example C15_host_drive_nonvacuous :
+  let t := PB true in let f := PB false in
+  let ops := drive_ops [[f]; [t]; [f; t]; [t]; [t; f; t]; [f]; [t]] in
+  let cfg := {| hc_click := Some 0%nat; hc_provider := false |} in
+  let ps := [(false, 0%nat); (true, 1%nat); (true, 0%nat); (true, 2%nat); (true, 0%nat); (false, 1%nat); (true, 1%nat)] in
+  sampled false (fun _ => false) false 0 ops = map fst ps /\
+  map hclicks (poll_events ops (fst (h_hist 5 cfg (fun _ => false) hs_init ops))) = [0; 1; 0; 0; 0; 0; 1]%nat /\
+  map clicks (dev_run LoopTop (Some 2%nat) false ps) = [0; 1; 0; 0; 0; 0; 1]%nat /\
+  h_hist 1 {| hc_click := Some 0%nat; hc_provider := true |} (fun k => Nat.odd k) hs_init
+         [HSet t; HPoll; HPoll; HSet f; HPoll; HPoll] =
+    ([[]; [HRet false]; [HClick; HRet true]; []; [HRet false]; [HClick; HRet true]], true) /\
+  map (fun v => hs_pressed (h_set hs_init v)) [PI 0; PI 2; PI (-1); PF (1 # 2); PF 0; PO; PB true] =
+    [false; true; true; true; false; false; true] /\
+  plain cfg /\ hs_was (fst (fst (h_poll 1 cfg (fun _ => false) (h_set hs_init t)))) = true.
+Proof. vm_compute. repeat split; reflexivity. Qed.
+Print Assumptions C15_host_drive_nonvacuous.
 
 (* no click at start-up, for a button declared before the main loop and for one declared at the top of
    the main-loop body alike (the latter was finding F-C15-looptop-startup-click, repaired): setup never
@@ -196,6 +306,23 @@ Example C15_positions_nonvacuous :
           WL [ev [1; 7; 0]; ev [3; 0]; ev [3; 3]; ev [3; 0]]]]%Z.
 Proof. vm_compute. reflexivity. Qed.
 Print Assumptions C15_positions_nonvacuous.
+
+(* a pass that ends early - "if g > 1: continue" at the top level of the loop body, which the transpiler turns into return; -
+   still takes its one sample (the theorems above are about every body, also one with such statements); here: gate values
+   0, 2, 0 -> the second pass stops after the poll and the gate read, the click of that pass has happened all the same *)
+Example C15_early_pass_end_nonvacuous :
+  let pressed := WL [WI 1; WI 0]%Z in
+  let sk := {| k_w := 32; k_drifts := []; k_passgaps := [];
+               k_buttons := [{| bd_pin := 7; bd_place := BeforeLoop; bd_h := Some 0%nat; bd_samples := [0; 0; 1; 1]%Z |}];
+               k_pots := []; k_ultras := []; k_gate := Some {| pd_pin := 19; pd_values := [0; 2; 0]%Z |};
+               k_body := [ WL [WI 30; pressed]; WL [WI 38; WI 1]; WL [WI 30; WL [WI 5; WI 0; pressed; WL [WI 0; WI 4]]] ]%Z |} in
+  run_sketch sk 3 0 =
+  WL [WI 0; WL [ev [1; 7; 0]];
+      WL [WL [ev [1; 7; 0]; ev [4; 19; 0]; ev [3; 0]; ev [3; 4]];
+          WL [ev [1; 7; 1]; ev [2; 0]; ev [4; 19; 2]; ev [3; 1]];
+          WL [ev [1; 7; 1]; ev [4; 19; 0]; ev [3; 1]; ev [3; 5]]]]%Z.
+Proof. vm_compute. reflexivity. Qed.
+Print Assumptions C15_early_pass_end_nonvacuous.
 
 (* ---------------------------------------------------------------- Potentiometer *)
 
